@@ -1,6 +1,7 @@
 package props
 
 import (
+	"bytes"
 	"context"
 	"fmt"
 	"github.com/DOSNetwork/core/p2p/discover"
@@ -225,6 +226,8 @@ func genC17Dispatch(rng *hx.Rng, w *hx.Writer, maxEv int) {
 
 // ---------------------------------------------------------------- real endpoints, scripted responders
 
+var bigReply = bytes.Repeat([]byte("0123456789abcdef"), 40000) // 640 000 bytes
+
 // arg: n=<requests>,peers=<k>,drop=<percent>,cancel=<percent>,fault=none|peer-closes|refused|silent,seed=..
 // prints one line per judged fact; "ok" if nothing is wrong
 func subC17System(arg string) string {
@@ -263,7 +266,11 @@ func subC17System(arg string) string {
 				}
 				go func(m p2p.P2PMessage) {
 					time.Sleep(delay)
-					s.Reply(context.Background(), m.Sender, m.RequestNonce, &vss.Signature{RequestId: []byte("re:" + tag + "@" + id)})
+					rep := &vss.Signature{RequestId: []byte("re:" + tag + "@" + id)}
+					if strings.HasSuffix(tag, "7") {
+						rep.Content = bigReply // a reply that reaches the requester in many reads
+					}
+					s.Reply(context.Background(), m.Sender, m.RequestNonce, rep)
 				}(m)
 			}
 		}(s, id, ch)
@@ -397,6 +404,13 @@ func subC17System(arg string) string {
 	case <-time.After(20 * time.Second):
 		return "wedged: requests still pending after 20 s"
 	}
+	// the connections are torn down (the node leaves): whatever state cancelled and dropped requests
+	// left behind must not crash the process
+	sa.Leave()
+	for _, r := range responders {
+		r.Leave()
+	}
+	time.Sleep(250 * time.Millisecond)
 	if len(problems) == 0 {
 		return "ok"
 	}
